@@ -88,7 +88,8 @@ type busWriter struct {
 }
 
 func (w *busWriter) Write(p []byte) (n int, err error) {
-	if uint32(len(p)) >= w.o+w.end {
+	if w.start+w.o+uint32(len(p)) > w.end {
+		// does not fit in what remains of the bank: store nothing rather than a silent partial write
 		err = io.ErrUnexpectedEOF
 		return
 	}
